@@ -69,7 +69,7 @@ theorem evalLevel_ok (N : Nat) (a : List Nat) (k : Int) (v : Nat) (hv : v < wind
     simp only [List.mem_map] at hst
     obtain ⟨j, hj, rfl⟩ := hst
     simp only [setOf, List.mem_filter, List.mem_range] at hj
-    exact hj.1
+    exact hj.1.1
   by_cases hset : setOf N a k = []
   · rw [evalLevel_empty N a k v hset]
     by_cases hc : v + 1 = windowSize ∨ k = 1
@@ -114,14 +114,33 @@ theorem loopLevels_ok (N : Nat) (a : List Nat) (sgn : Int) : ∀ (i v : Nat), v 
       · exact h1.1 st h
       · exact h2.1 st h
 
+theorem midLevel_ok (N : Nat) (a : List Nat) (v : Nat) (hv : v < windowSize) :
+    (∀ st ∈ (midLevel N a v).1, stepOk N a.length st) ∧ (midLevel N a v).2 < windowSize := by
+  unfold midLevel
+  by_cases hset : (setOf N a ((2 * N : Nat) : Int)).isEmpty = true
+  · simp only [hset, if_true, List.not_mem_nil, false_imp_iff, implies_true, true_and]; exact hv
+  · simp only [hset, Bool.false_eq_true, if_false]
+    refine ⟨?_, by simp [windowSize]⟩
+    intro st hst
+    rcases List.mem_append.mp hst with h1 | h1
+    · by_cases hv0 : v = 0
+      · simp [hv0] at h1
+      · simp only [ne_eq, hv0, not_false_eq_true, if_true, List.mem_singleton] at h1
+        subst h1
+        exact Or.inl ⟨v, by omega, by omega, rfl⟩
+    · simp only [List.mem_map] at h1
+      obtain ⟨j, hj, rfl⟩ := h1
+      simp only [setOf, List.mem_filter, List.mem_range] at hj
+      exact hj.1.1
+
 /-- `keys_exact`, inclusion: every operation of `BlindRotateCore` is served by a key
     `GenEvaluationKeyNew` generates (Galois elements `5^1 … 5^10`, `2N − 5`; one RGSW key per LWE
     secret coefficient). -/
 theorem coreSchedule_ok (N : Nat) (a : List Nat) : ∀ st ∈ coreSchedule N a, stepOk N a.length st := by
   have hw : 0 < windowSize := by simp [windowSize]
   have hneg := loopLevels_ok N a (-1) (N / 2 - 1) 0 hw
-  have hmid := evalLevel_ok N a ((2 * N : Nat) : Int) 0 hw
-  have hpos := loopLevels_ok N a 1 (N / 2 - 1) _ hneg.2
+  have hmid := midLevel_ok N a _ hneg.2
+  have hpos := loopLevels_ok N a 1 (N / 2 - 1) _ hmid.2
   have hlast := evalLevel_ok N a 0 0 hw
   intro st hst
   simp only [coreSchedule, List.mem_append, List.mem_singleton] at hst
